@@ -142,6 +142,12 @@ func propC17(e *Env) {
 						end = len(rest)
 					}
 					simrt.HYield()
+					if !oneShot && e.Choose("io", 6) == 0 {
+						// an empty datagram carries no bytes: outside one-shot mode (where it means "end") it changes nothing
+						net.sendTo(network, address, nil)
+						e.Fault("empty_datagram")
+						simrt.HYield()
+					}
 					if !net.sendTo(network, address, []byte(rest[:end])) {
 						w.refused = true
 						return
@@ -208,6 +214,23 @@ func propC17(e *Env) {
 		return
 	}
 	if !cancelled {
+		// An empty datagram sends a datagram stream to sleep until its next poll, with later datagrams
+		// waiting in the socket: let polls happen, so that everything written has been read before the stop
+		// (what is still unread in the socket at a cancellation is not promised).
+		if dgram {
+			for k, idle := 0, 0; k < 400 && idle < 2; k++ {
+				before := len(r.got)
+				r.sw.Tick()
+				if !r.quiesce() {
+					return
+				}
+				if len(r.got) == before {
+					idle++
+				} else {
+					idle = 0
+				}
+			}
+		}
 		// everything written, all connections closed: now stop the stream
 		if !oneShot || dgram {
 			r.cancel()
@@ -329,9 +352,14 @@ func propC17(e *Env) {
 // c17Pipe: a named pipe (or stdin backed by one) on the real kernel, behind the read gate.
 func c17Pipe(e *Env, stdin bool) {
 	path := filepath.Join(e.Dir, "pipe")
-	if err := syscall.Mkfifo(path, 0o600); err != nil {
-		e.Broken("mkfifo: %v", err)
-		return
+	// One run in three (not for stdin): the pipe matches two patterns and appears only after tailing began,
+	// so two pattern pollers find it in the same poll and race to start its stream.
+	twoPatterns := !stdin && e.Choose("gen", 3) == 0
+	if !twoPatterns {
+		if err := syscall.Mkfifo(path, 0o600); err != nil {
+			e.Broken("mkfifo: %v", err)
+			return
+		}
 	}
 	pattern := path
 	source := path
@@ -347,13 +375,34 @@ func c17Pipe(e *Env, stdin bool) {
 		pattern, source = "-", "-"
 	}
 	g := newFifoGate(source)
-	r := newTailRig(e, tailer.LogPatterns([]string{pattern}))
+	baseCount := logCountVar()
+	patterns := []string{pattern}
+	if twoPatterns {
+		patterns = append(patterns, filepath.Join(e.Dir, "pi*"))
+		e.Probe("pipe_matches_two_patterns")
+	}
+	r := newTailRig(e, tailer.LogPatterns(patterns))
 	if !r.quiesce() {
 		return
 	}
 	if !r.started || r.startErr != nil {
 		e.Broken("tailer.New(%s): started=%v err=%v", pattern, r.started, r.startErr)
 		return
+	}
+	if twoPatterns {
+		if err := syscall.Mkfifo(path, 0o600); err != nil {
+			e.Broken("mkfifo: %v", err)
+			return
+		}
+		r.pw.Tick()
+		if !r.quiesce() {
+			return
+		}
+		// two readers on one pipe would split its bytes between them: exactly one stream may have been started
+		if n := logCountVar() - baseCount; n != 1 {
+			e.Fail("pipe-read-by-two-streams", "named pipe matched by patterns %v, created after tailing began: after the pattern poll log_count went up by %d (one stream per pipe expected); live: %s", patterns, n, liveString(e))
+			return
+		}
 	}
 	// writer 0: arbitrary chunking, optional unterminated tail; writer 1 (optional, overlapping): whole lines per write
 	nl := 1 + e.Choose("gen", 7)
